@@ -877,6 +877,25 @@ theorem spec_no_overlap_unique (st : Stored) (segs keys : List Nat) (h : overlap
   | [s], _ => exact Or.inr ⟨s, rfl⟩
   | _ :: _ :: _, hl => simp at hl
 
+/-- **`relabel` only renames**: where no two requested segments overlap, the relabelled combined value of a pixel is the 1-based
+position (in the request) of the value the same read gives without `relabel`, and 0 stays 0 — the segment chosen is the same,
+only its label differs. -/
+theorem relabel_only_renames (st : Stored) (segs keys : List Nat) (hpos : ∀ s ∈ segs, 0 < s)
+    (h : overlaps st segs keys = false) (k : Nat) (hk : k ∈ keys) (i : Nat) (hi : i < st.npix) :
+    combinedSpec st segs true k i = posVal segs (combinedSpec st segs false k i).toNat := by
+  obtain ⟨h1, h2, _⟩ := spec_combined_pixel st segs true k i
+  obtain ⟨g1, g2, _⟩ := spec_combined_pixel st segs false k i
+  rcases spec_no_overlap_unique st segs keys h k hk i hi with he | ⟨s, hs⟩
+  · rw [h2 he, g2 he]
+    have h0 : (0 : Nat) ∉ segs := fun hm => by have := hpos 0 hm; omega
+    unfold posVal posNat
+    simp [h0]
+  · have hm : s ∈ segs := by
+      have : s ∈ presentAt st segs k i := by rw [hs]; simp
+      exact (List.mem_filter.mp this).1
+    rw [h1 s hs, g1 s hs, outVal_own segs s hm, outVal_relabel]
+    simp
+
 /-- **Overlap detection is sound and complete**: with the check on, a combined read of a BINARY / FRACTIONAL object is accepted
 iff it is accepted with the check off AND no two different requested segments share a pixel of a requested plane. -/
 theorem overlap_check_sound_and_complete (st : Stored) (wf : WfObj st) (mode : Mode) (a : Bool) (rq : Req)
